@@ -150,6 +150,8 @@ def jobs(tier):
     J(L=70, kind='p2p', shape='twoway', L2=181, kind2='p2p', windows=[3, 1])
     J(L=121, kind='p2p', shape='fanout', L2=70, kind2='pdu2', windows=[2, 2])
     J(L=121, kind='p2p', shape='twoway', L2=121, kind2='pdu2', windows=[1, 1])
+    for tr in ([['A', 'B', 70], ['C', 'D', 61], ['B', 'A', 121]], [['A', 'B', 121], ['A', 'C', 70], ['A', 'D', 61], ['A', 'G', 130]], [['B', 'A', 70], ['C', 'A', 71], ['D', 'A', 72]]):
+        out.append(Job('C02', 'c01:h_multi', {'transfers': tr, 'explore': False, 'dll': 'j1939-22'}, W=40, wall=300, validate=1))
     J(h='c02:h_overlap', L1=400, L2=70, L3=130, windows=[1, 1])
     J(h='c02:h_overlap', L1=600, L2=70, L3=300, windows=[2, 1])
     J(h='c02:h_staggered', L1=130, L2=70, windows=[1, 1])
